@@ -181,7 +181,9 @@ def write_svg(matrix, matrix_size, out, colormap, scale=1, border=None, xmldecl=
     if omit_encoding:
         encoding = 'utf-8'
     allow_css3_colors = svgversion is not None and svgversion >= 2.0
-    is_multicolor = len(set(colormap.values())) > 2
+    is_multicolor = len(set(colormap.values())) > 2 \
+        or any(clr != colormap[consts.TYPE_DATA_DARK if mt >> 8 else consts.TYPE_QUIET_ZONE]
+               for mt, clr in colormap.items())
     need_background = not is_multicolor and colormap[consts.TYPE_QUIET_ZONE] is not None and not draw_transparent
     need_svg_group = scale != 1 and (need_background or is_multicolor)
     if is_multicolor:
